@@ -118,6 +118,21 @@ Definition res_inv (L : shared) (l1 l2 : list thread) (r : ares) : Prop :=
 
 Ltac swap_with H := eapply inv_swap; [ | | exact H]; reflexivity.
 
+(* calling a lock method that is legal in the caller's mode (the use step of RwlockModel) *)
+Lemma enter_inv : forall s l1 l2 m o sp sq,
+  legal m o = true ->
+  Inv (mkState s (l1 ++ (Ready m, sp) :: l2)) -> Inv (mkState s (l1 ++ (entry m o, sq) :: l2)).
+Proof.
+  intros s l1 l2 m o sp sq Lg H.
+  assert (H0 : Inv (mkState s (l1 ++ (Ready m, [o]) :: l2))) by (swap_with H).
+  assert (P : pstep s (Ready m) [o] = (s, entry m o, [], [EvUse m])).
+  { cbn [pstep fetch]. rewrite Lg. reflexivity. }
+  pose proof (pstep_inv _ _ _ _ _ _ _ _ _ H0 P) as H1.
+  swap_with H1.
+Qed.
+
+Ltac step_with H := first [ swap_with H | (eapply enter_inv; [ | exact H]; reflexivity) ].
+
 Lemma lcont_inv : forall L l1 l2 a c m sp,
   Inv (mkState L (l1 ++ (Ready m, sp) :: l2)) -> res_inv L l1 l2 (lcont a c m).
 Proof.
@@ -126,7 +141,7 @@ Proof.
     repeat match goal with
            | |- context [if ?x then _ else _] => destruct x
            end;
-    cbn [res_inv alock amode entry keep wmode_of]; swap_with H.
+    cbn [res_inv alock amode keep wmode_of]; step_with H.
 Qed.
 
 Ltac split_ifs_in E :=
@@ -168,5 +183,5 @@ Proof.
     inversion E; subst; clear E;
     cbn [lk set_wtbf set_halted set_akey set_astart set_asplice anchors putS putO set_slices set_owner set_count];
     (split; [reflexivity|]);
-    cbn [res_inv alock amode entry keep wmode_of is_append]; swap_with HI.
+    cbn [res_inv alock amode keep wmode_of]; step_with HI.
 Qed.
